@@ -89,14 +89,14 @@ func (e *env) acceptCheck(what string, x []byte, class string, injective bool, d
 	e.run.Count("chain_strings_accepted", 1)
 	wit := map[string]interface{}{"type": what, "input": hexw(x), "class": class}
 	if _, serr := strictDecode(x); serr != nil {
-		e.c.Violation("noncanonical-accepted:"+what+":"+strictClass(serr), fmt.Sprintf("%s accepts a non-canonical string (%v)", what, serr), wit)
+		e.viol("noncanonical-accepted:"+what+":"+strictClass(serr), fmt.Sprintf("%s accepts a non-canonical string (%v)", what, serr), wit)
 		return
 	}
 	if injective {
 		re, rerr := rlp.EncodeToBytes(v)
 		if rerr != nil || !bytes.Equal(re, x) {
 			wit["reencoded"] = hexw(re)
-			e.c.Violation("accepted-not-the-encoding-of-decoded-value:"+what, fmt.Sprintf("%s accepts x but Encode(Decode(x)) differs (err %v)", what, rerr), wit)
+			e.viol("accepted-not-the-encoding-of-decoded-value:"+what, fmt.Sprintf("%s accepts x but Encode(Decode(x)) differs (err %v)", what, rerr), wit)
 		}
 	}
 }
@@ -143,39 +143,39 @@ func chainTx(c *core.Case) {
 		return
 	}
 	if err != nil {
-		c.Violation("tx-canonical-rejected", "a transaction built from its field list does not decode: "+err.Error(), wit)
+		e.viol("tx-canonical-rejected", "a transaction built from its field list does not decode: "+err.Error(), wit)
 		return
 	}
 	gv, gr, gs := tx.RawSignatureValues()
 	sameTo := (tx.To() == nil) == (to == nil) && (to == nil || *tx.To() == *to)
 	if tx.Nonce() != nonce || tx.Gas() != gas || tx.GasPrice().Cmp(price) != 0 || tx.Value().Cmp(amount) != 0 || !bytes.Equal(tx.Data(), payload) || !sameTo ||
 		gv.Cmp(V) != 0 || gr.Cmp(R) != 0 || gs.Cmp(S) != 0 {
-		c.Violation("tx-fields-differ", "decoded transaction fields differ from the encoded ones", wit)
+		e.viol("tx-fields-differ", "decoded transaction fields differ from the encoded ones", wit)
 	}
 	if h := tx.Hash(); h != keccak(model) {
-		c.Violation("tx-hash-differs", fmt.Sprintf("Hash() = %x, keccak256(encoding) = %x", h, keccak(model)), wit)
+		e.viol("tx-hash-differs", fmt.Sprintf("Hash() = %x, keccak256(encoding) = %x", h, keccak(model)), wit)
 	}
 	if int(tx.Size()) != len(model) {
-		c.Violation("tx-size-differs", fmt.Sprintf("Size() = %d, encoding has %d bytes", int(tx.Size()), len(model)), wit)
+		e.viol("tx-size-differs", fmt.Sprintf("Size() = %d, encoding has %d bytes", int(tx.Size()), len(model)), wit)
 	}
 	re, err := rlp.EncodeToBytes(&tx)
 	if err != nil || !bytes.Equal(re, model) {
-		c.Violation("tx-reencode-differs", fmt.Sprintf("Encode(Decode(x)) = %s (err %v)", hexw(re), err), wit)
+		e.viol("tx-reencode-differs", fmt.Sprintf("Encode(Decode(x)) = %s (err %v)", hexs(re), err), wit)
 	}
 	if mb, err := tx.MarshalBinary(); err != nil || !bytes.Equal(mb, model) {
-		c.Violation("tx-reencode-differs:MarshalBinary", fmt.Sprintf("MarshalBinary = %s (err %v)", hexw(mb), err), wit)
+		e.viol("tx-reencode-differs:MarshalBinary", fmt.Sprintf("MarshalBinary = %s (err %v)", hexs(mb), err), wit)
 	}
 	// second generation: decode the re-encoding; hash must stay
 	var tx2 types.Transaction
 	if err := rlp.DecodeBytes(re, &tx2); err != nil || tx2.Hash() != tx.Hash() {
-		c.Violation("tx-hash-differs:second-roundtrip", fmt.Sprintf("hash changes across encode/decode (err %v)", err), wit)
+		e.viol("tx-hash-differs:second-roundtrip", fmt.Sprintf("hash changes across encode/decode (err %v)", err), wit)
 	}
 	// reference implementation: the legacy Ethereum transaction has the same 9-field layout
 	var gtx gtypes.Transaction
 	if gerr := grlp.DecodeBytes(model, &gtx); gerr != nil {
-		c.Violation("geth-rejects-own-encoding:tx", gerr.Error(), wit)
+		e.viol("geth-rejects-own-encoding:tx", gerr.Error(), wit)
 	} else if gcommon.Hash(tx.Hash()) != gtx.Hash() {
-		c.Violation("tx-hash-differs-from-geth", fmt.Sprintf("go-ethereum hashes the same transaction to %x", gtx.Hash()), wit)
+		e.viol("tx-hash-differs-from-geth", fmt.Sprintf("go-ethereum hashes the same transaction to %x", gtx.Hash()), wit)
 	}
 	run.Count("tx_roundtrips", 1)
 	run.Nontrivial("tx|" + hexw(model))
@@ -203,20 +203,20 @@ func chainTx(c *core.Case) {
 		from, ferr := types.Sender(signer, signed)
 		enc, err := rlp.EncodeToBytes(types.Transactions{signed, &tx})
 		if err != nil {
-			c.Violation("tx-encode-error", err.Error(), nil)
+			e.viol("tx-encode-error", err.Error(), nil)
 			return
 		}
 		var back types.Transactions
 		if err := rlp.DecodeBytes(enc, &back); err != nil || len(back) != 2 {
-			c.Violation("tx-list-roundtrip", fmt.Sprintf("list of transactions does not decode (err %v)", err), hexw(enc))
+			e.viol("tx-list-roundtrip", fmt.Sprintf("list of transactions does not decode (err %v)", err), hexw(enc))
 			return
 		}
 		from2, ferr2 := types.Sender(signer, back[0])
 		if back[0].Hash() != signed.Hash() || back[1].Hash() != tx.Hash() || from != from2 || (ferr == nil) != (ferr2 == nil) {
-			c.Violation("tx-hash-differs:signed", fmt.Sprintf("signed transaction: hash %x -> %x, sender %x -> %x (%v, %v)", signed.Hash(), back[0].Hash(), from, from2, ferr, ferr2), hexw(enc))
+			e.viol("tx-hash-differs:signed", fmt.Sprintf("signed transaction: hash %x -> %x, sender %x -> %x (%v, %v)", signed.Hash(), back[0].Hash(), from, from2, ferr, ferr2), hexw(enc))
 		}
 		if !bytes.Equal(encList(cat(types.Transactions{signed}.GetRlp(0), model)), enc) {
-			c.Violation("tx-list-roundtrip:GetRlp", "GetRlp(i) is not the i-th element of the encoded list", hexw(enc))
+			e.viol("tx-list-roundtrip:GetRlp", "GetRlp(i) is not the i-th element of the encoded list", hexw(enc))
 		}
 		run.Count("tx_signed_roundtrips", 1)
 	}
@@ -316,11 +316,11 @@ func chainReceipt(c *core.Case) {
 	run.Eval(1)
 	enc, err := rlp.EncodeToBytes(rc)
 	if err != nil || !bytes.Equal(enc, model) {
-		c.Violation("receipt-encoding-differs-from-model", fmt.Sprintf("consensus encoding %s (err %v), field list gives %s", hexw(enc), err, hexw(model)), nil)
+		e.viol("receipt-encoding-differs-from-model", fmt.Sprintf("consensus encoding %s (err %v), field list gives %s", hexs(enc), err, hexs(model)), nil)
 		return
 	}
 	if got := (types.Receipts{rc}).GetRlp(0); !bytes.Equal(got, model) {
-		c.Violation("receipt-encoding-differs-from-model:GetRlp", "Receipts.GetRlp differs from the consensus encoding", hexw(got))
+		e.viol("receipt-encoding-differs-from-model:GetRlp", "Receipts.GetRlp differs from the consensus encoding", hexw(got))
 	}
 	var back types.Receipt
 	var derr error
@@ -328,20 +328,20 @@ func chainReceipt(c *core.Case) {
 		return
 	}
 	if derr != nil {
-		c.Violation("receipt-roundtrip-decode-error", derr.Error(), hexw(enc))
+		e.viol("receipt-roundtrip-decode-error", derr.Error(), hexw(enc))
 		return
 	}
 	if back.Status != rc.Status || !bytes.Equal(back.PostState, rc.PostState) || back.CumulativeGasUsed != rc.CumulativeGasUsed || back.Bloom != rc.Bloom || !sameLogs(back.Logs, rc.Logs) {
-		c.Violation("receipt-fields-differ", "consensus fields change across encode/decode", hexw(enc))
+		e.viol("receipt-fields-differ", "consensus fields change across encode/decode", hexw(enc))
 	}
 	if re, _ := rlp.EncodeToBytes(&back); !bytes.Equal(re, enc) || keccak(re) != keccak(enc) {
-		c.Violation("receipt-hash-differs", "re-encoding (and therefore the receipt hash) changes across encode/decode", hexw(enc))
+		e.viol("receipt-hash-differs", "re-encoding (and therefore the receipt hash) changes across encode/decode", hexw(enc))
 	}
 	var grc gtypes.Receipt
 	if gerr := grlp.DecodeBytes(enc, &grc); gerr != nil {
-		c.Violation("geth-rejects-own-encoding:receipt", gerr.Error(), hexw(enc))
+		e.viol("geth-rejects-own-encoding:receipt", gerr.Error(), hexw(enc))
 	} else if gre, _ := grlp.EncodeToBytes(&grc); !bytes.Equal(gre, enc) {
-		c.Violation("receipt-encoding-differs-from-geth", fmt.Sprintf("go-ethereum re-encodes the receipt as %s", hexw(gre)), hexw(enc))
+		e.viol("receipt-encoding-differs-from-geth", fmt.Sprintf("go-ethereum re-encodes the receipt as %s", hexs(gre)), hexw(enc))
 	}
 	run.Count("receipt_roundtrips", 1)
 	run.Nontrivial("receipt|" + hexw(enc[:8]) + fmt.Sprint(len(rc.Logs), len(enc)))
@@ -350,7 +350,7 @@ func chainReceipt(c *core.Case) {
 	smodel := encList(cat(statusModel(rc), encUint(rc.CumulativeGasUsed), encStr(rc.Bloom[:]), encStr(rc.TxHash[:]), encStr(rc.ContractAddress[:]), encList(logs), encUint(rc.GasUsed)))
 	senc, err := rlp.EncodeToBytes((*types.ReceiptForStorage)(rc))
 	if err != nil || !bytes.Equal(senc, smodel) {
-		c.Violation("receipt-storage-encoding-differs-from-model", fmt.Sprintf("storage encoding %s (err %v), field list gives %s", hexw(senc), err, hexw(smodel)), nil)
+		e.viol("receipt-storage-encoding-differs-from-model", fmt.Sprintf("storage encoding %s (err %v), field list gives %s", hexs(senc), err, hexs(smodel)), nil)
 		return
 	}
 	checkStored := func(in []byte, what string) {
@@ -360,15 +360,15 @@ func chainReceipt(c *core.Case) {
 			return
 		}
 		if derr != nil {
-			c.Violation("receipt-storage-roundtrip-decode-error:"+what, derr.Error(), hexw(in))
+			e.viol("receipt-storage-roundtrip-decode-error:"+what, derr.Error(), hexw(in))
 			return
 		}
 		if sb.Status != rc.Status || !bytes.Equal(sb.PostState, rc.PostState) || sb.CumulativeGasUsed != rc.CumulativeGasUsed || sb.Bloom != rc.Bloom || !sameLogs(sb.Logs, rc.Logs) ||
 			sb.TxHash != rc.TxHash || sb.ContractAddress != rc.ContractAddress || sb.GasUsed != rc.GasUsed {
-			c.Violation("receipt-storage-fields-differ:"+what, "stored receipt fields change across encode/decode", hexw(in))
+			e.viol("receipt-storage-fields-differ:"+what, "stored receipt fields change across encode/decode", hexw(in))
 		}
 		if re, _ := rlp.EncodeToBytes((*types.Receipt)(&sb)); !bytes.Equal(re, enc) {
-			c.Violation("receipt-hash-differs:storage:"+what, "consensus encoding of the receipt read back from storage differs", hexw(in))
+			e.viol("receipt-hash-differs:storage:"+what, "consensus encoding of the receipt read back from storage differs", hexw(in))
 		}
 	}
 	checkStored(senc, "current")
@@ -393,16 +393,16 @@ func chainReceipt(c *core.Case) {
 	bmodel := encList(cat(encUint(bi.GasUsed), mustBig(bi.Rewards), encList(rs), encStr(bi.Bloom[:])))
 	benc, err := rlp.EncodeToBytes(bi)
 	if err != nil || !bytes.Equal(benc, bmodel) {
-		c.Violation("blockinfo-encoding-differs-from-model", fmt.Sprintf("BlockInfo encoding %s (err %v), field list gives %s", hexw(benc), err, hexw(bmodel)), nil)
+		e.viol("blockinfo-encoding-differs-from-model", fmt.Sprintf("BlockInfo encoding %s (err %v), field list gives %s", hexs(benc), err, hexs(bmodel)), nil)
 	} else {
 		var bb types.BlockInfo
 		if err := rlp.DecodeBytes(benc, &bb); err != nil {
-			c.Violation("blockinfo-roundtrip-decode-error", err.Error(), hexw(benc))
+			e.viol("blockinfo-roundtrip-decode-error", err.Error(), hexw(benc))
 		} else if re, _ := rlp.EncodeToBytes(&bb); !bytes.Equal(re, benc) || bb.GasUsed != bi.GasUsed || bb.Rewards.Cmp(bi.Rewards) != 0 || bb.Bloom != bi.Bloom || len(bb.Receipts) != 2 {
-			c.Violation("blockinfo-fields-differ", "BlockInfo changes across encode/decode", hexw(benc))
+			e.viol("blockinfo-fields-differ", "BlockInfo changes across encode/decode", hexw(benc))
 		}
 		if int(bi.Size()) != len(benc) {
-			c.Violation("blockinfo-size-differs", fmt.Sprintf("Size() = %d, encoding has %d bytes", int(bi.Size()), len(benc)), hexw(benc))
+			e.viol("blockinfo-size-differs", fmt.Sprintf("Size() = %d, encoding has %d bytes", int(bi.Size()), len(benc)), hexw(benc))
 		}
 		run.Count("blockinfo_roundtrips", 1)
 	}
@@ -422,7 +422,7 @@ func chainReceipt(c *core.Case) {
 	if len(rc.Logs) > 0 {
 		lenc, _ := rlp.EncodeToBytes(rc.Logs[0])
 		if !bytes.Equal(lenc, logModel(rc.Logs[0])) {
-			c.Violation("log-encoding-differs-from-model", hexw(lenc), hexw(logModel(rc.Logs[0])))
+			e.viol("log-encoding-differs-from-model", hexw(lenc), hexw(logModel(rc.Logs[0])))
 		}
 		mutantsOf(r, lenc, 3, func(x []byte, class string) {
 			e.acceptCheck("types.Log", x, class, true, func() (interface{}, error) {
@@ -448,7 +448,7 @@ func chainAccount(c *core.Case) {
 	run.Eval(1)
 	enc, err := rlp.EncodeToBytes(&acc)
 	if err != nil || !bytes.Equal(enc, model) {
-		c.Violation("account-encoding-differs-from-model", fmt.Sprintf("account encoding %s (err %v), field list gives %s", hexw(enc), err, hexw(model)), nil)
+		e.viol("account-encoding-differs-from-model", fmt.Sprintf("account encoding %s (err %v), field list gives %s", hexs(enc), err, hexs(model)), nil)
 		return
 	}
 	var back types.StateAccount
@@ -457,15 +457,15 @@ func chainAccount(c *core.Case) {
 		return
 	}
 	if derr != nil || back.Nonce != acc.Nonce || back.Balance.Cmp(acc.Balance) != 0 || back.Root != acc.Root || !bytes.Equal(back.CodeHash, acc.CodeHash) {
-		c.Violation("account-fields-differ", fmt.Sprintf("account changes across encode/decode (err %v)", derr), hexw(enc))
+		e.viol("account-fields-differ", fmt.Sprintf("account changes across encode/decode (err %v)", derr), hexw(enc))
 		return
 	}
 	if re, _ := rlp.EncodeToBytes(&back); keccak(re) != keccak(enc) {
-		c.Violation("account-hash-differs", "account re-encoding (its trie leaf) changes across encode/decode", hexw(enc))
+		e.viol("account-hash-differs", "account re-encoding (its trie leaf) changes across encode/decode", hexw(enc))
 	}
 	gacc := gstate.Account{Nonce: acc.Nonce, Balance: acc.Balance, Root: gcommon.Hash(acc.Root), CodeHash: acc.CodeHash}
 	if genc, _ := grlp.EncodeToBytes(&gacc); !bytes.Equal(genc, enc) {
-		c.Violation("account-encoding-differs-from-geth", fmt.Sprintf("go-ethereum encodes the same account as %s", hexw(genc)), hexw(enc))
+		e.viol("account-encoding-differs-from-geth", fmt.Sprintf("go-ethereum encodes the same account as %s", hexs(genc)), hexw(enc))
 	}
 	// slim form and back
 	var slim, full []byte
@@ -485,10 +485,10 @@ func chainAccount(c *core.Case) {
 	}
 	smodel := encList(cat(encUint(acc.Nonce), mustBig(acc.Balance), encStr(sroot), encStr(scode)))
 	if !bytes.Equal(slim, smodel) {
-		c.Violation("slim-account-encoding-differs-from-model", fmt.Sprintf("slim encoding %s, field list gives %s", hexw(slim), hexw(smodel)), hexw(enc))
+		e.viol("slim-account-encoding-differs-from-model", fmt.Sprintf("slim encoding %s, field list gives %s", hexs(slim), hexs(smodel)), hexw(enc))
 	}
 	if ferr != nil || ferr2 != nil || facc == nil || facc.Nonce != acc.Nonce || facc.Balance.Cmp(acc.Balance) != 0 || facc.Root != acc.Root || !bytes.Equal(facc.CodeHash, acc.CodeHash) || !bytes.Equal(full, enc) {
-		c.Violation("account-hash-differs:slim", fmt.Sprintf("slim -> full conversion does not give the account back (%v, %v)", ferr, ferr2), map[string]interface{}{"full": hexw(enc), "slim": hexw(slim), "back": hexw(full)})
+		e.viol("account-hash-differs:slim", fmt.Sprintf("slim -> full conversion does not give the account back (%v, %v)", ferr, ferr2), map[string]interface{}{"full": hexw(enc), "slim": hexw(slim), "back": hexw(full)})
 	}
 	run.Count("account_roundtrips", 1)
 	run.Nontrivial("account|" + hexw(enc))
@@ -525,7 +525,7 @@ func chainHeader(c *core.Case) {
 	run.Eval(1)
 	enc, err := rlp.EncodeToBytes(h)
 	if err != nil || !bytes.Equal(enc, model) {
-		c.Violation("header-encoding-differs-from-model", fmt.Sprintf("header encoding %s (err %v), field list gives %s", hexw(enc), err, hexw(model)), nil)
+		e.viol("header-encoding-differs-from-model", fmt.Sprintf("header encoding %s (err %v), field list gives %s", hexs(enc), err, hexs(model)), nil)
 		return
 	}
 	var back types.Header
@@ -534,23 +534,25 @@ func chainHeader(c *core.Case) {
 		return
 	}
 	if derr != nil {
-		c.Violation("header-roundtrip-decode-error", derr.Error(), hexw(enc))
+		e.viol("header-roundtrip-decode-error", derr.Error(), hexw(enc))
 		return
 	}
 	noTime := *h
 	noTime.Time = back.Time
 	if !reflect.DeepEqual(noTime, back) {
-		c.Violation("header-fields-differ", "header fields other than Time change across RLP encode/decode", hexw(enc))
+		e.viol("header-fields-differ", "header fields other than Time change across RLP encode/decode", hexw(enc))
 	}
 	if re, _ := rlp.EncodeToBytes(&back); !bytes.Equal(re, enc) {
-		c.Violation("header-reencode-differs", "header re-encoding differs", hexw(enc))
+		e.viol("header-reencode-differs", "header re-encoding differs", hexw(enc))
 	}
 	if back.Hash() != h.Hash() {
+		// the known cause (Time is written as an empty list) gets its own key only if it is the whole explanation:
+		// the header with Time zeroed must hash to exactly what came back
 		key := "header-hash-changes-across-rlp"
-		if withTime && back.Time.IsZero() {
+		if withTime && back.Time.IsZero() && noTime.Hash() == back.Hash() {
 			key += ":Time-not-encoded"
 		}
-		c.Violation(key, fmt.Sprintf("Header.Hash() %x becomes %x after rlp encode/decode: Header.EncodeRLP writes Time as an empty list, Hash() covers Time (%v -> %v)", h.Hash(), back.Hash(), h.Time, back.Time),
+		e.viol(key, fmt.Sprintf("Header.Hash() %x becomes %x after rlp encode/decode: Header.EncodeRLP writes Time as an empty list, Hash() covers Time (%v -> %v)", h.Hash(), back.Hash(), h.Time, back.Time),
 			map[string]interface{}{"encoding": hexw(enc), "time": h.Time.String()})
 	}
 	run.Count("header_roundtrips", 1)
